@@ -593,6 +593,15 @@ def handleCl (st : St) (kind : String) (a : Args) (obs : String) : IO St := do
     let loadOk := decide (ts < st.hist.origin)
     let m := s!"save=false load={loadOk} " ++ histCanon st.hist
     if m == obs then return st else report st kind m obs
+  | "cl.hist.writefault" =>
+    -- writes of the history file fail, reads work: the save succeeds only when it has nothing to write (the
+    -- slot already holds exactly this value); in every other case it reports an error and the file stays
+    let ts := argNat a "ts"; let v := argNat a "v"
+    let ok := match st.hist.load ts with
+      | some cur => decide (st.hist.origin ≤ ts) && cur == v && (st.hist.save ts v).isSome
+      | none => false
+    let m := s!"save={ok} " ++ histCanon st.hist
+    if m == obs then return st else report st kind m obs
   | "cl.hist.load" =>
     let m := match st.hist.load (argNat a "ts") with | none => "err" | some v => toString v
     if m == obs then return st else report st kind m obs
